@@ -34,6 +34,7 @@ CONSTANTS
     SetVals,     \* value specs for SetItem / SetDefault
     PairVals,    \* value specs inside pair lists
     Factories,   \* initial default hooks explored by this run: subset of {"None", "Dict"}
+    Mixed,       \* TRUE: update / the constructor are also called with a positional argument AND keyword arguments
     AdoptSet,    \* {FALSE} or BOOLEAN: may the walk continue on a copy / a constructed dict
     Mode,        \* "graph" (every transition once) | "walk" (random behaviours)
     Bug          \* "none"; anything else selects a deliberately wrong variant (negative configs)
@@ -121,7 +122,7 @@ Put(its, k, v) ==
 RECURSIVE PutAll(_, _)
 PutAll(its, ps) == IF ps = <<>> THEN its ELSE PutAll(Put(its, ps[1][1], ps[1][2]), Tail(ps))
 
-Op(name) == [name |-> name, k |-> "", v |-> NoneV, hasd |-> FALSE, pairs |-> <<>>, form |-> "",
+Op(name) == [name |-> name, k |-> "", v |-> NoneV, hasd |-> FALSE, pairs |-> <<>>, kw |-> <<>>, form |-> "",
              f |-> "", adopt |-> FALSE, mk |-> NoneV]
 
 DictDesc(its, f) == [t |-> "dictobj", n |-> 0, items |-> its, f |-> f, cls |-> Cls]
@@ -196,6 +197,31 @@ Update ==
       LET a == AllocPairs(ps, heap, Live) IN
       Commit(PutAll(items, a.ps), factory, a.h, [Op("Update") EXCEPT !.pairs = a.ps, !.form = form], NoneV)
 
+\* update(e, **kw) / C(factory, e, **kw): one call with a positional mapping (or pair list) and keyword
+\* arguments; the positional pairs are applied first, then the keywords (same key in any case: the keyword wins)
+KwSeqs == {kw \in PairSeqs : kw # <<>> /\ Distinct(kw)}
+MixedForms(ps) == IF Distinct(ps) THEN {"pairs+kw", "dict+kw"} ELSE {"pairs+kw"}
+UpdateMixed ==
+    /\ Mixed
+    /\ \E ps \in Pick(PairSeqs \ {<<>>}), kw \in Pick(KwSeqs) : \E form \in Pick(MixedForms(ps)) :
+         LET a   == AllocPairs(ps \o kw, heap, Live)
+             pos == SubSeq(a.ps, 1, Len(ps))
+             kws == SubSeq(a.ps, Len(ps) + 1, Len(a.ps))
+         IN  Commit(IF Bug = "kwfirst" THEN PutAll(PutAll(items, kws), pos) ELSE PutAll(PutAll(items, pos), kws), factory, a.h,
+                    [Op("Update") EXCEPT !.pairs = pos, !.kw = kws, !.form = form], NoneV)
+
+ConstructMixed ==
+    /\ Mixed
+    /\ \E ps \in Pick(PairSeqs \ {<<>>}), kw \in Pick(KwSeqs), f \in Pick({"None", "Dict"}), adopt \in Pick(AdoptSet) :
+       \E form \in Pick(MixedForms(ps)) :
+         LET a   == AllocPairs(ps \o kw, heap, Live)
+             pos == SubSeq(a.ps, 1, Len(ps))
+             kws == SubSeq(a.ps, Len(ps) + 1, Len(a.ps))
+             new == PutAll(PutAll(<<>>, pos), kws)
+             op  == [Op("Construct") EXCEPT !.pairs = pos, !.kw = kws, !.form = form, !.f = f, !.adopt = adopt]
+         IN  IF adopt THEN Commit(new, f, a.h, op, DictDesc(new, f))
+             ELSE Commit(items, factory, a.h, op, DictDesc(new, f))
+
 Construct ==
     \E ps \in Pick(PairSeqs), f \in Pick({"None", "Dict"}), adopt \in Pick(AdoptSet) : \E form \in Pick(Forms(ps)) :
       LET a   == AllocPairs(ps, heap, Live)
@@ -241,6 +267,7 @@ Init ==
 
 Within == Len(hist) < MaxSteps
 Ops  == GetItem \/ SetItem \/ DelItem \/ Contains \/ Get \/ Pop \/ SetDefault \/ Update \/ Construct
+        \/ UpdateMixed \/ ConstructMixed
         \/ Copy \/ DeepCopy \/ Pickle \/ KeysOp
 \* (walk mode: the last action is fixed, so that the simulator sees - and prints - one final state per walk)
 Next == Within /\ (IF Mode = "walk" /\ Len(hist) = MaxSteps - 1 THEN KeysOp ELSE Ops)
@@ -298,7 +325,7 @@ AutoCreation == [][AutoLaw]_vars
 
 \* refinement: "returns what an ordinary ordered dict keyed by the lower-cased keys would"
 FoldPairs(ps) == [i \in DOMAIN ps |-> <<Fold(ps[i][1]), ps[i][2]>>]
-FoldOp(o)     == [o EXCEPT !.k = Fold(o.k), !.pairs = FoldPairs(o.pairs)]
+FoldOp(o)     == [o EXCEPT !.k = Fold(o.k), !.pairs = FoldPairs(o.pairs), !.kw = FoldPairs(o.kw)]
 Plain == INSTANCE PlainOD WITH od <- items, fac <- factory, pop <- FoldOp(obs.op), pret <- obs.ret,
                                NoneV <- NoneV, DfltV <- DfltV, KeyErr <- KeyErr,
                                TrueV <- Bool(TRUE), FalseV <- Bool(FALSE)
